@@ -39,9 +39,10 @@ VARIABLES model,         \* the abstract input, filled in as the code reads it
           result,        \* MergeHeaderFile: the graph under construction [nodes, rels]
           trie,          \* PathTrie: prefix-closed set of paths (sequences of raw parts)
           registered,    \* MapToGraph: `nodes` map, dotted name -> node id
-          obs            \* what an observer of the real code would have projected so far
+          obs,           \* what an observer of the real code would have projected so far
+          verdict        \* ArchRef!Diff of the finished run (computed once, on the finishing step)
 
-vars == <<model, phase, ci, nodeList, relationList, mergeQ, inMerge, pending, result, trie, registered, obs>>
+vars == <<model, phase, ci, nodeList, relationList, mergeQ, inMerge, pending, result, trie, registered, obs, verdict>>
 
 -----------------------------------------------------------------------------
 (* universes and alphabets (selected by `Universe <- U_...` in the cfgs) *)
@@ -131,6 +132,7 @@ Init ==
   /\ obs = [panic |-> FALSE, hasGraph |-> TRUE,
             graph |-> [nodes |-> <<>>, relations |-> <<>>], final |-> [nodes |-> <<>>, relations |-> <<>>],
             dot |-> [wellformed |-> TRUE, nodes |-> <<>>, edges |-> <<>>]]
+  /\ verdict = {}
 
 Put(m, k, v) == (k :> v) @@ m              \* m[k] = v on a Go map
 Rel(a, b) == <<a, b>>
@@ -151,7 +153,7 @@ SkipMain ==         \* `if clz.NodeName == "Main" { continue }`
   /\ phase = "analysis" /\ ci <= Len(model.types) /\ model.types[ci].name = "Main"
   /\ \E s \in RelChoices : model' = [model EXCEPT !.types[ci] = WithRels(@, s)]
   /\ ci' = ci + 1
-  /\ UNCHANGED <<phase, nodeList, relationList, mergeQ, inMerge, pending, result, trie, registered, obs>>
+  /\ UNCHANGED <<phase, nodeList, relationList, mergeQ, inMerge, pending, result, trie, registered, obs, verdict>>
 
 AnalyzeClass ==
   /\ phase = "analysis" /\ ci <= Len(model.types) /\ model.types[ci].name # "Main"
@@ -165,7 +167,7 @@ AnalyzeClass ==
                                  THEN CHOOSE r \in rs : RelKey(r[1], r[2]) = k
                                  ELSE relationList[k]]
   /\ ci' = ci + 1
-  /\ UNCHANGED <<phase, mergeQ, inMerge, pending, result, trie, registered, obs>>
+  /\ UNCHANGED <<phase, mergeQ, inMerge, pending, result, trie, registered, obs, verdict>>
 
 Project2(ns, rl) ==       \* the projection the harness applies to a FullGraph
   [nodes |-> SetToSeq(ns), relations |-> SetToSeq({rl[k] : k \in DOMAIN rl})]
@@ -174,7 +176,7 @@ AnalysisReturns ==
   /\ phase = "analysis" /\ ci > Len(model.types)
   /\ phase' = "analysed"
   /\ obs' = [obs EXCEPT !.graph = Project2(nodeList, relationList)]
-  /\ UNCHANGED <<model, ci, nodeList, relationList, mergeQ, inMerge, pending, result, trie, registered>>
+  /\ UNCHANGED <<model, ci, nodeList, relationList, mergeQ, inMerge, pending, result, trie, registered, verdict>>
 
 ReadSwitches ==     \* cmd/arch.go: IsMergeHeader first, then IsMergePackage
   /\ phase = "analysed"
@@ -182,13 +184,13 @@ ReadSwitches ==     \* cmd/arch.go: IsMergeHeader first, then IsMergePackage
        /\ model' = [model EXCEPT !.mergeH = m \in {"H", "HP"}, !.mergeP = m \in {"P", "HP"}]
        /\ mergeQ' = CASE m = "H" -> <<"H">> [] m = "P" -> <<"P">> [] m = "HP" -> <<"H", "P">> [] OTHER -> <<>>
   /\ phase' = "merge"
-  /\ UNCHANGED <<ci, nodeList, relationList, inMerge, pending, result, trie, registered, obs>>
+  /\ UNCHANGED <<ci, nodeList, relationList, inMerge, pending, result, trie, registered, obs, verdict>>
 
 MergeNodes ==       \* MergeHeaderFile, first loop
   /\ phase = "merge" /\ mergeQ # <<>> /\ ~inMerge
   /\ result' = [nodes |-> {MergeFn(mergeQ[1], k) : k \in nodeList}, rels |-> <<>>]
   /\ inMerge' = TRUE /\ pending' = DOMAIN relationList
-  /\ UNCHANGED <<model, phase, ci, nodeList, relationList, mergeQ, trie, registered, obs>>
+  /\ UNCHANGED <<model, phase, ci, nodeList, relationList, mergeQ, trie, registered, obs, verdict>>
 
 MergeRelation ==    \* MergeHeaderFile, one iteration of the relation loop (map order: any pending key)
   /\ phase = "merge" /\ inMerge
@@ -201,19 +203,19 @@ MergeRelation ==    \* MergeHeaderFile, one iteration of the relation loop (map 
            /\ result' = IF (FixLeaving /\ (r[1] \notin nodeList \/ r[2] \notin nodeList)) \/ mf = mt
                         THEN result
                         ELSE [result EXCEPT !.rels = Put(@, key, Rel(mf, mt))]
-  /\ UNCHANGED <<model, phase, ci, nodeList, relationList, mergeQ, inMerge, trie, registered, obs>>
+  /\ UNCHANGED <<model, phase, ci, nodeList, relationList, mergeQ, inMerge, trie, registered, obs, verdict>>
 
 MergeReturns ==
   /\ phase = "merge" /\ inMerge /\ pending = {}
   /\ nodeList' = result.nodes /\ relationList' = result.rels
   /\ mergeQ' = Tail(mergeQ) /\ inMerge' = FALSE
-  /\ UNCHANGED <<model, phase, ci, pending, result, trie, registered, obs>>
+  /\ UNCHANGED <<model, phase, ci, pending, result, trie, registered, obs, verdict>>
 
 MergesDone ==
   /\ phase = "merge" /\ mergeQ = <<>> /\ ~inMerge
   /\ phase' = "merged"
   /\ obs' = [obs EXCEPT !.final = Project2(nodeList, relationList)]
-  /\ UNCHANGED <<model, ci, nodeList, relationList, mergeQ, inMerge, pending, result, trie, registered>>
+  /\ UNCHANGED <<model, ci, nodeList, relationList, mergeQ, inMerge, pending, result, trie, registered, verdict>>
 
 BuildMapTree ==     \* ToMapDot(nodeFilter): one PathTrie.Put per included node. Put only adds the prefixes of the
                     \* key's path to the trie, so the order of the map loop cannot matter: the loop is one step.
@@ -223,7 +225,7 @@ BuildMapTree ==     \* ToMapDot(nodeFilter): one PathTrie.Put per included node.
        /\ trie' = UNION {PathPrefixes(Parts(n)) :
                            n \in {k \in nodeList : f = <<>> \/ \E i \in DOMAIN f : Contains(k, f[i])}}
   /\ phase' = "tree"
-  /\ UNCHANGED <<ci, nodeList, relationList, mergeQ, inMerge, pending, result, registered, obs>>
+  /\ UNCHANGED <<ci, nodeList, relationList, mergeQ, inMerge, pending, result, registered, obs, verdict>>
 
 Leaves == {p \in trie : ~\E q \in trie : Len(q) = Len(p) + 1 /\ SubSeq(q, 1, Len(p)) = p}
 IdOf(p) == "node:" \o Join(p, "")
@@ -238,7 +240,7 @@ BuildGraphNodes ==  \* MapToGraph: buildGraphNode over the whole trie; only leav
   /\ obs' = [obs EXCEPT !.dot.nodes =
                SetToSeq({[id |-> IdOf(p), label |-> Value(p[Len(p)]), path |-> Values(SubSeq(p, 1, Len(p) - 1))] : p \in Leaves})]
   /\ phase' = "graph"
-  /\ UNCHANGED <<model, ci, nodeList, relationList, mergeQ, inMerge, pending, result, trie>>
+  /\ UNCHANGED <<model, ci, nodeList, relationList, mergeQ, inMerge, pending, result, trie, verdict>>
 
 DrawEdges ==        \* MapToGraph: `if nodes[relation.From] != "" && nodes[relation.To] != ""`
   /\ phase = "graph"
@@ -247,6 +249,7 @@ DrawEdges ==        \* MapToGraph: `if nodes[relation.From] != "" && nodes[relat
                            r \in {relationList[k] : k \in {x \in DOMAIN relationList :
                                     relationList[x][1] \in DOMAIN registered /\ relationList[x][2] \in DOMAIN registered}}})]
   /\ phase' = "done"
+  /\ verdict' = Diff([case |-> "machine", input |-> model, observed |-> obs'])
   /\ UNCHANGED <<model, ci, nodeList, relationList, mergeQ, inMerge, pending, result, trie, registered>>
 
 Finished == phase = "done"
@@ -276,14 +279,14 @@ C13_QuotientExact ==
      GraphDiff("merged-node", "merged-edge", QNodes(model), QEdges(model), obs.final) = {}
 
 C13_DotEdgesBetweenDisplayed ==
-  Finished => Untagged(OfKinds(DotDiff(model, obs.dot), {"dot-edge-to-undisplayed", "dot-edge-not-in-graph", "dot-edge-missing",
+  Finished => Untagged(OfKinds(verdict, {"dot-edge-to-undisplayed", "dot-edge-not-in-graph", "dot-edge-missing",
                                                         "dot-node-id-reused"})) = {}
 
 C13_EachTypeOnce ==
-  Finished => OfKinds(DotDiff(model, obs.dot), {"dot-type-missing", "dot-type-repeated", "dot-node-not-an-included-type",
+  Finished => OfKinds(verdict, {"dot-type-missing", "dot-type-repeated", "dot-node-not-an-included-type",
                                                "dot-node-not-an-included-package", "dot-package-repeated"}) = {}
 
-C13_Reference == Finished => Untagged(Diff(Rec)) = {}
+C13_Reference == Finished => Untagged(verdict) = {}
 
 \* mid-way: the relation loop of a merge never records a self-loop, and (repaired) only merged nodes as ends
 C13_MergeNoSelfLoop == \A k \in DOMAIN result.rels : result.rels[k][1] # result.rels[k][2]
@@ -295,5 +298,5 @@ C13_Terminates == <>Finished
 Emit == Finished => PrintT(<<"CASE", ToJson([input |-> model])>>)
 
 \* how many explored inputs are excused by the known-finding tag (narrowness of the tag)
-EmitTagged == Finished => (IF Untagged(Diff(Rec)) = Diff(Rec) THEN TRUE ELSE PrintT(<<"NOTE", "tagged", ToJson([input |-> model])>>))
+EmitTagged == Finished => (IF Untagged(verdict) = verdict THEN TRUE ELSE PrintT(<<"NOTE", "tagged", ToJson([input |-> model])>>))
 =============================================================================
